@@ -296,8 +296,18 @@ fn parent(jobs: Vec<Job>, out: &str, chunks: usize, threads: usize) {
     let mut aborts = 0usize;
     let ok = run_child(&remaining, out, threads);
     let mut finished = std::collections::HashSet::new();
-    for (run, lines, complete) in read_parts(out) {
+    // The watchdog only fires when NO open history made progress for the whole limit: every open
+    // history is stuck.  Such a hang is usually a rare schedule that a re-run would not hit again,
+    // so it is reported as it is instead of being re-run.
+    let stalled = STALLED.swap(false, Ordering::SeqCst);
+    for (run, mut lines, complete) in read_parts(out) {
         if complete {
+            finished.insert(run.clone());
+            done.push((run, lines));
+        } else if stalled {
+            aborts += 1;
+            lines.push(json!({"k": "stall", "i": -3, "t": 0, "run": run}).to_string());
+            lines.push(json!({"k": "end", "i": -3, "t": 0}).to_string());
             finished.insert(run.clone());
             done.push((run, lines));
         }
